@@ -1,7 +1,7 @@
 """C14 — Garbage collection never changes build outcomes (target.go, function.go, sourceFile.go, project.go, project_index.go)."""
 import build_common
 
-RULE = ('histories with target / source removals and additions and `gc` (index-only load, as `dawn gc`, or full load) at arbitrary points, stray temporaries left by crashes; a label whose record was collected is never re-created. Judge: gc changes nothing outside .dawn/build; the decoded record of every live label is unchanged; no record of a dead label and no temporary remains; index.json stays; the twin history without the collections executes the same bodies with the same results in every build. Correspondence as for C01, plus targetInfoPath value by value on random labels (kinds, packages and names over reserved, escaped and non-ASCII bytes).')
+RULE = ('histories with target / source removals and additions and `gc` (index-only load, as `dawn gc`, or full load) at arbitrary points, stray temporaries left by crashes; a label whose record was collected is never re-created. Judge: gc changes nothing outside .dawn/build; the decoded record of every live label is unchanged; no record of a dead label and no temporary remains; index.json stays; the twin history without the collections executes the same bodies with the same results in every build. Correspondence as for C01, plus targetInfoPath value by value on random labels (kinds, packages and names over reserved, escaped and non-ASCII bytes). A share of the histories (2 in 5) run in a project whose root is opened through a symbolic link or whose .dawn is a symbolic link to a directory elsewhere.')
 
 
 def run(c):
